@@ -4,9 +4,11 @@ CONSTANTS
   Indexes <- IndexNamesPrefix
   Aliases <- AliasNames
   Exprs <- ExprsAll
+  DelExprs <- DelExprsPrefix
   TermsOf <- Terms
   Matches <- Match
   IsWild <- Wild
+  GenMode = "plain"
   MaxOps = 4
   FixDelete = FALSE
   FixRegistry = FALSE
